@@ -16,7 +16,7 @@ TECHNIQUE = 'static analysis: abstract interpretation of the Array class over un
 
 def r1_operator_table(run, tree):
     run.rule("C02.R1", "operator table: dunder -> _binary_op(ufunc, self, other, strict, out)", "S4 table + sibling agreement",
-             "Python data model", floor=12)
+             "Python data model", floor=8)
     af.check_operator_table_fold(run, tree, optab.ARITH)
     ct.check_composites(run, tree, ["__rmul__", "__rtruediv__", "__pow__", "__neg__"])
 
@@ -68,7 +68,14 @@ def r7_end_to_end(run, tree):
     qs.check_numpy_stack(run, tree, only=("powers",))
 
 
-RULES = [r1_operator_table, r2_convert_before_combine, r3_unit_derivation, r4_dtype_gate, r5_to, r6_helpers, r7_end_to_end]
+def r8_histories(run, tree):
+    run.rule("C02.R8", "histories: probe; mutator (in-place operator, buffer edit, unit re-assignment); the same probe again - every object compared with the "
+             "algebra of physical quantities after every step (operands: Arrays in m/cm/s, an array-valued Quantity, python 0, the same object twice)",
+             "D7 fold of the whole Array class over operation sequences", "", floor=8)
+    qs.check_array_history_space(run, tree, "quick")
+
+
+RULES = [r1_operator_table, r2_convert_before_combine, r3_unit_derivation, r4_dtype_gate, r5_to, r6_helpers, r7_end_to_end, r8_histories]
 
 
 def t_pair_space(run, tree):
@@ -76,4 +83,10 @@ def t_pair_space(run, tree):
     qs.check_unit_pair_space(run, tree, kinds=("strict", "free", "strict-in", "free-in"))
 
 
-THOROUGH_RULES = [t_pair_space]
+def t_history_space(run, tree):
+    run.rule("C02.T2", "thorough: the complete product probe x mutator x probe of the history fold (all seven pure operators, four in-place operators, "
+             "operands a, b, c, Quantity, 0, 2.0, self)", "D7 fold of the whole Array class over operation sequences", "", floor=8)
+    qs.check_array_history_space(run, tree, "thorough")
+
+
+THOROUGH_RULES = [t_pair_space, t_history_space]
